@@ -50,6 +50,11 @@ SPECIAL = [
     ('handler_args_in_math', '$x \\phantom{\\zzsum} y \\hphantom{\\zzint}$ A \\[ a\\hspace{\\zzlen}b \\] \\zzq',
      ['\\zzq']),
     ('handler_args_math_then_text', '$\\phantom{\\zza}$ \\zzb \\phantom{\\zza}', ['\\zzb', '\\zza']),
+    # layouts of a package list: blanks and line breaks around the names (README: "as in LaTeX")
+    ('pkg_list_layout', '\\usepackage{xcolor ,hyperref}\\usepackage{\n  amsthm\n}A \\textcolor{red}{B} '
+                        '\\href{u}{t} \\begin{proof}P\\end{proof} \\zzq', ['\\zzq']),
+    ('pkg_list_layout2', '\\usepackage{ xcolor }\\usepackage{amsthm ,\n hyperref\n}A \\textcolor{red}{B} '
+                         '\\href{u}{t} \\begin{proof}P\\end{proof} \\zzq', ['\\zzq']),
     ('env_in_math', '\\[ \\begin{zzmat} a \\end{zzmat} \\] \\begin{zzmat}b\\end{zzmat}', ['zzmat']),
 ]
 OPTSETS = [{'pack': '*'}, {'pack': ''}, {'pack': '*', 'repl': ['zzd & zzq', 'zza zzb & x', 'zzenv & E'],
